@@ -35,14 +35,14 @@ class Boom(Exception):
 
 def norm(v):
     """exceptions that travel as ordinary VALUES (error.map(lambda e: e)) are compared by the item that raised them"""
-    if isinstance(v, Boom):
-        return ('exc-as-value', v.tag)
+    if isinstance(v, Exception):
+        return ('exc-as-value', tag_of(v))
     if isinstance(v, (list, tuple)):
         return type(v)(norm(x) for x in v) if type(v) in (list, tuple) else v
     return v
 
 
-OPS = ['map', 'starmap', 'filter', 'scan']
+OPS = ['map', 'starmap', 'filter', 'scan', 'scan_reduce', 'cmap']
 HANDLERS = ['ignore', 'map', 'router', 'none']
 TAILS = ['nothing', 'to_list', 'scan', 'count']
 
@@ -80,11 +80,27 @@ def failing_op(op):
             return i[1] % 2 == 0
         return rs.ops.filter(p)
 
+    if op == 'cmap':
+        # the user function is a C callable (operator.neg): the exception (a TypeError on None) is raised without any
+        # Python frame below the operator's own
+        import operator
+        return rx.pipe(rs.ops.map(lambda i: None if i[2] else i[1]), rs.ops.map(operator.neg))
+
     def acc(a, i):
         if i[2]:
             raise boom(i[3])
         return a + i[1]
-    return rs.ops.scan(acc, 0)
+    return rs.ops.scan(acc, 0, reduce=(op == 'scan_reduce'))
+
+
+def tag_of(e):
+    return e.tag if isinstance(e, Boom) else 'builtin:' + type(e).__name__
+
+
+def exp_tag(op, it, shared):
+    if op == 'cmap':
+        return 'builtin:TypeError'
+    return 'shared' if shared else it[3]
 
 
 def ref_op_outputs(op, items):
@@ -101,10 +117,21 @@ def ref_op_outputs(op, items):
             outs.append([it[1] - 100])
         elif op == 'filter':
             outs.append([it] if it[1] % 2 == 0 else [])
+        elif op == 'cmap':
+            outs.append([-it[1]])
+        elif op == 'scan_reduce':
+            outs.append([])
         else:
             a = a + it[1]
             outs.append([a])
     return outs
+
+
+def ref_op_final(op, items):
+    """what the operator emits when the key completes (reduce=True: the fold of the unflagged items, the seed for none)"""
+    if op != 'scan_reduce':
+        return []
+    return [sum(it[1] for it in items if not it[2])]
 
 
 MAPVAL = ['tagged']
@@ -115,7 +142,7 @@ def mapper(e):
     v = MAPVAL[0]
     if v == 'exc':
         return e            # keep the error in place, as a value
-    return ('mapped', e.tag) if v == 'tagged' else {'none': None, 'zero': 0, 'false': False, 'empty': ''}[v]
+    return ('mapped', tag_of(e)) if v == 'tagged' else {'none': None, 'zero': 0, 'false': False, 'empty': ''}[v]
 
 
 def ref_tail(tail, xs):
@@ -167,7 +194,7 @@ def run(case):
         hops = [route()]
 
         def d_next(e):
-            events.append(('dead', getattr(e, 'tag', repr(e))))
+            events.append(('dead', tag_of(e) if isinstance(e, Exception) else repr(e)))
             dead.items.append(e)
 
         def d_done():
@@ -223,7 +250,7 @@ def run(case):
         keymap = {}
         for kind, key, item, _t in between:
             if kind in ('n', 'e'):
-                got_between.setdefault(key, []).append(('e', item.tag if isinstance(item, Boom) else repr(item)) if kind == 'e' else ('n', item))
+                got_between.setdefault(key, []).append(('e', tag_of(item) if isinstance(item, Exception) else repr(item)) if kind == 'e' else ('n', item))
         # map mux keys to group keys by order of creation
         created = [key for kind, key, item, _t in between if kind == 'c']
         if len(created) != len(keys):
@@ -232,9 +259,10 @@ def run(case):
             exp = []
             for it, o in zip(per[k], ref_op_outputs(op, per[k])):
                 if o is None:
-                    exp.append(('e', 'shared' if shared else it[3]))
+                    exp.append(('e', exp_tag(op, it, shared)))
                 else:
                     exp += [('n', x) for x in o]
+            exp += [('n', x) for x in ref_op_final(op, per[k])]
             if got_between.get(mk, []) != exp:
                 raise Violation('events between the failing operator and the handler differ: expected exactly one mux error per failing item, in place',
                                 key=k, expected=exp, got=got_between.get(mk, []), **ctx)
@@ -244,7 +272,7 @@ def run(case):
         xs = []       # what the handler lets through for key k, per source item
         for it, o in zip(its, ref_op_outputs(op, its)):
             if o is None:
-                xs.append([mapper(Boom('shared' if shared else it[3]))] if handler == 'map' and not outer else [])
+                xs.append([mapper(TypeError() if op == 'cmap' else Boom(exp_tag(op, it, shared)))] if handler == 'map' and not outer else [])
             else:
                 xs.append(o)
         return xs
@@ -263,6 +291,10 @@ def run(case):
             exp_main += norm(so[-1])
         pos[k] += 1
     for k in keys:
+        for x in ref_op_final(op, per[k]):
+            tail_inputs[k].append(x)
+            so, _ = ref_tail(tail, tail_inputs[k])
+            exp_main += norm(so[-1])
         _, co = ref_tail(tail, tail_inputs[k])
         exp_main += norm(co)
 
@@ -277,8 +309,8 @@ def run(case):
             raise Violation('exception escaped subscribe', result=r.brief(), **ctx)
         if r.error is None:
             raise Violation('an unhandled mux error did not surface as on_error', result=r.brief(), **ctx)
-        if not isinstance(r.error, Boom) or r.error.tag != ('shared' if shared else failing[0][3]):
-            raise Violation('on_error carries %r, expected Boom(%r) of the first failing item' % (r.error, failing[0][3]), **ctx)
+        if not isinstance(r.error, TypeError if op == 'cmap' else Boom) or tag_of(r.error) != exp_tag(op, failing[0], shared):
+            raise Violation('on_error carries %r, expected the exception of the first failing item (%r)' % (r.error, failing[0][3]), **ctx)
         if r.completed:
             raise Violation('stream both failed and completed', **ctx)
         # prefix of the clean output (computed with the failing items absent)
@@ -290,8 +322,8 @@ def run(case):
     if not cmp.same_seq(r.items, exp_main, approx=False):
         raise Violation('main output differs from the output computed without the failing items', expected=exp_main, got=r.items, **ctx)
     if handler == 'router' and not outer:
-        tags = [getattr(e, 'tag', None) for e in dead.items]
-        if any(not isinstance(e, Boom) for e in dead.items) or tags != [('shared' if shared else it[3]) for it in failing]:
+        tags = [tag_of(e) if isinstance(e, Exception) else None for e in dead.items]
+        if any(not isinstance(e, TypeError if op == 'cmap' else Boom) for e in dead.items) or tags != [exp_tag(op, it, shared) for it in failing]:
             raise Violation('dead-letter observable did not receive exactly the exceptions in source order',
                             expected=[it[3] for it in failing], got=[repr(e) for e in dead.items], **ctx)
         if dead.error is not None:
@@ -306,7 +338,7 @@ def run(case):
 @st.composite
 def case_gen(draw):
     driver = draw(st.sampled_from(['store', 'grouped', 'grouped', 'multiplex']))
-    op = draw(st.sampled_from(OPS if driver != 'multiplex' else ['map', 'starmap', 'filter']))
+    op = draw(st.sampled_from(OPS if driver != 'multiplex' else ['map', 'starmap', 'filter', 'cmap']))
     tail = draw(st.sampled_from(TAILS if driver != 'multiplex' else ['nothing']))
     n = draw(st.integers(draw(st.sampled_from([0, 1, 3, 6])), 12))
     items = [[draw(st.integers(0, 2)), draw(st.integers(-5, 5)), draw(st.integers(0, 2).map(lambda x: int(x == 0)))] for _ in range(n)]
